@@ -256,6 +256,7 @@ fn gen_c07(seed: u64, tier: Tier) -> ResolvePlan {
         // out-of-zone servers whose addresses have to be looked up every time
         zero_ttl_outside_ns_addresses: *r.pick(&[0u8, 0, 0, 60]),
         short_ttl_value: 1,
+        ghost_ns_percent: 0,
     };
     // address families: mostly v4, sometimes dual/v6 with a matching mode
     let (fam, mode) = match r.below(6) {
@@ -808,6 +809,7 @@ fn gen_c18(seed: u64, _index: u64, tier: Tier) -> ResolvePlan {
         // addresses of out-of-zone servers that can be used but never cached
         zero_ttl_outside_ns_addresses: *r.pick(&[0u8, 0, 30, 100]),
         short_ttl_value: 0,
+        ghost_ns_percent: *r.pick(&[0u8, 0, 40]),
     };
     knobs.protocol_mode = (*r.pick(&["only-v4", "prefer-v4", "prefer-v6", "only-v6"])).to_string();
     knobs.upstream_port = *r.pick(&[53u16, 53, 5353, 1053, 40000]);
@@ -1380,7 +1382,12 @@ fn gen_c10(seed: u64, _index: u64, tier: Tier) -> ResolvePlan {
     // decoy aliases from a byzantine upstream, in recursive mode only (the
     // forwarder is documented as trusted: its answer is relayed as it is)
     if mode == "recursive" && r.chance(0.3) {
-        knobs.upstream_fault_kinds = vec!["ans_cname_fan_first".into(), "ans_cname_fan".into(), "ans_offpath_cname".into()];
+        knobs.upstream_fault_kinds = vec![
+            "ans_cname_fan_first".into(),
+            "ans_cname_fan".into(),
+            "ans_offpath_cname".into(),
+            "alias_through_local".into(),
+        ];
         knobs.faults.insert("upstream.fault".into(), *r.pick(&[0.3, 1.0]));
     }
     if mode == "forwarding" {
@@ -1563,6 +1570,13 @@ fn gen_c10(seed: u64, _index: u64, tier: Tier) -> ResolvePlan {
             prune_before: false,
         });
     }
+    // names local data speaks for: targets for aliases a byzantine upstream sends
+    knobs.local_targets = names
+        .iter()
+        .zip(src_of.iter())
+        .filter(|(_, s)| matches!(**s, "auth" | "nonauth"))
+        .map(|(n, _)| n.clone())
+        .collect();
     ResolvePlan {
         knobs,
         hints_auto: true,
